@@ -46,6 +46,7 @@ type ChartDef struct {
 	Defaults []Leaf       `json:"defaults"`
 	Schema   []Constraint `json:"schema"`
 	Crds     bool         `json:"crds"`
+	NoTpl    bool         `json:"notpl"` // no file under templates/ at all (a pure grouping chart)
 }
 
 type Case struct {
